@@ -198,13 +198,16 @@ class Sys(object):
         return r
 
 
-def run_sync(T, d, kind):
-    """sync_request with configured timeout T, reply arriving after d: returns (outcome, clock)"""
+def run_sync(T, d, kind, age=0):
+    """sync_request with configured timeout T issued on a connection that is `age` seconds old, reply arriving after d:
+    returns (outcome, clock).  The expiry counts from the moment the request is ISSUED."""
     box = {}
 
     def main():
         sy = Sys("sync", T)
         c = sy.conn
+        if age:
+            S.sim_time.sleep(age)
         t0 = S.sim_time.time()
 
         def peer():
@@ -554,15 +557,15 @@ def sync_matrix():
     viol = []
     n = 0
     samples = []
-    for T in (None, 0, 1, 2, -1):
-        for d in (None, 0, 0.5, 1.0, 1.5, 2.5):
-            for kind in ("val", "exc"):
+    for T, d, kind, age in [(T, d, kind, age) for T in (None, 0, 1, 2, -1) for d in (None, 0, 0.5, 1.0, 1.5, 2.5)
+                            for kind in ("val", "exc") for age in (0, 0.75, 5)]:
+            if True:
                 if d is None and (T is None or T < 0):
                     continue
                 n += 1
-                outcome, out = run_sync(T, d, kind)
+                outcome, out = run_sync(T, d, kind, age)
                 if outcome != "done" or out is None:
-                    viol.append(("sync:harness:%s" % outcome, "T=%r d=%r" % (T, d)))
+                    viol.append(("sync:harness:%s" % outcome, "T=%r d=%r age=%r" % (T, d, age)))
                     continue
                 (res, val), dt, left = out
                 finite = T is not None and T >= 0
@@ -573,9 +576,9 @@ def sync_matrix():
                 else:
                     want, wt = {"ok" if kind == "val" else "exc"}, d
                 if res not in want:
-                    viol.append(("sync:outcome:got=%s:want=%s" % (res, "|".join(sorted(want))), "T=%r arrival=%r kind=%s -> %r" % (T, d, kind, out)))
+                    viol.append(("sync:outcome:got=%s:want=%s" % (res, "|".join(sorted(want))), "T=%r arrival=%r kind=%s connection-age=%r -> %r" % (T, d, kind, age, out)))
                 elif abs(dt - wt) > EPS:
-                    viol.append(("sync:timing", "T=%r arrival=%r: returned after %.3f, want %.3f" % (T, d, dt, wt)))
+                    viol.append(("sync:timing", "T=%r arrival=%r connection-age=%r: returned after %.3f, want %.3f" % (T, d, age, dt, wt)))
                 if len(samples) < 3:
                     samples.append({"sync_request_timeout": T, "reply_after": d, "kind": kind, "observed": repr(out)})
     return n, viol, samples
